@@ -8,12 +8,12 @@
                                  join prefix is run from init (s0-1) first);  js = subset of "oei": possible
                                  outcomes of the join;  item = <chain>/<tok>/<lo>/<hi>  (times: integers)
                                    chain T   what the terminal sent, in order:   s:<msg> ... x
-                                   chain F   frames the terminal received, in order:  W<serial>.<cmd> | R<serial>.<tag>
+                                   chain F   frames the terminal received, in order:  W<serial>.<cmd> | R<serial>.<tag> | Q<serial> (0x8003)
                                    chain K<i> caller i:  c:<cmd>:<tmo>  then (unless it hung)  ret:<result>
                                  an item may be scheduled when no other open item ended before it began.
 
-   choice tokens   c:<cmd>:<0|1>  s:<msg>  x  m:<o|e|i>  rr rf rp rc  ws wa:<0|1> wm:<pick>:<0|1> wc wd  ts:<i> tq:<i>
-   messages        r.<typ>.<echo>  b.<typ>  a  o.<tag>.<0|1>  f (one sub-package of a fragmented message)
+   choice tokens   c:<cmd>:<0|1>  s:<msg>  x  m:<o|e|i>  rr rf rp rc  ws wa:<0|1> wm:<pick>:<0|1> wc wd wr:<0|1>  ts:<i> tq:<i>
+   messages        r.<typ>.<echo>  b.<typ>  a  o.<tag>.<0|1>  f (one sub-package of a fragmented message)  q (0x8003 for reissuePackChan)
    results         resp.<typ>.<echo>  resp.a  timeout  wfail  noexist *)
 open Drv_common
 open BinNums
@@ -28,6 +28,7 @@ let msg_of_tok (t : string) : tmsg =
   | ["b"; typ] -> TBad (n_of typ)
   | ["a"] -> TAttr
   | ["f"] -> TFrag
+  | ["q"] -> TReissue
   | ["o"; tag; r] -> TOther (n_of tag, b_of r)
   | _ -> failwith ("bad message " ^ t)
 
@@ -44,6 +45,7 @@ let choice_of_tok (t : string) : choice =
   | ["wa"; w] -> WAct (b_of w)
   | ["wm"; p; w] -> WMsg (n_of p, b_of w)
   | ["wc"] -> WCpl | ["wd"] -> WDrain
+  | ["wr"; w] -> WReis (b_of w)
   | ["ts"; i] -> TSend (nat_of_int (int_of_string i))
   | ["tq"; i] -> TQuit (nat_of_int (int_of_string i))
   | _ -> failwith ("bad token " ^ t)
@@ -59,6 +61,7 @@ let frame_tok (o : obs) : string option =
   match o with
   | OWrite (k, c, true) -> Some (Printf.sprintf "W%s.%s" (dec_of_n k) (dec_of_n c.c_cmd))
   | OReply (k, TOther (tag, _), true) -> Some (Printf.sprintf "R%s.%s" (dec_of_n k) (dec_of_n tag))
+  | OReply (k, TReissue, true) -> Some (Printf.sprintf "Q%s" (dec_of_n k))
   | OReply (k, _, true) -> Some (Printf.sprintf "R%s.a" (dec_of_n k))
   | _ -> None
 
@@ -174,7 +177,7 @@ let explain (strategy : int) (nbudget : int) (joins : jres list) (st0 : st) (ite
         match Stdlib.List.find_opt (fun (_, m) -> m = id) ids with
         | Some (ci, _) when Array.length chains.(ci) = 2 && chains.(ci).(1).tok = "ret:timeout" -> [TSend i]
         | _ -> []) s.timers in
-    mg @ [RdRead; RdFail; RdPush; RdClose; WStop; WAct true; WAct false] @ wm @ [WCpl; WDrain] @ tm in
+    mg @ [RdRead; RdFail; RdPush; RdClose; WStop; WAct true; WAct false] @ wm @ [WCpl; WDrain; WReis true; WReis false] @ tm in
   let rec go (s : st) (pos : int array) (ids : (int * int) list) : bool =
     if all_done pos then true else begin
       decr budget; if !budget < 0 then raise Budget;
